@@ -198,39 +198,42 @@ func expandOpts(c *caseSpec, masks string) []optSpec {
 		return []optSpec{*c.O}
 	}
 	var res []optSpec
+	if masks != "thorough" {
+		// quick: 12 hand-picked masks: every plan x every omit combination, NestEmbed / Sort / CreateKey spread over them
+		for i, m := range []string{"TE----", "TE--e-", "TEnN-s", "TEnNek", "-E---k", "-En-es", "-E-N--", "-E-Nek", "--n---", "----ek", "---N-s", "--nNe-"} {
+			res = append(res, optSpec{Tags: m[0] == 'T', Exact: m[1] == 'E', Nest: m[2] == 'n', Nil: m[3] == 'N', Empty: m[4] == 'e',
+				Sort: m[5] == 's', Ck: map[bool]string{true: "^"}[m[5] == 'k'], Full: m[5] == 'k' && i%2 == 1, Bytes: 1})
+		}
+	}
 	n := 0
 	for _, tags := range []bool{true, false} {
 		for _, exact := range []bool{true, false} {
-			if tags && !exact && masks == "quick" {
-				continue // same field plan as tags+exact
+			if tags && !exact || masks != "thorough" {
+				continue // tags without exact: same field plan as tags+exact (KeyExact is only consulted without UseTags)
 			}
 			for _, nest := range []bool{false, true} {
 				for _, onil := range []bool{false, true} {
 					for _, oempty := range []bool{false, true} {
+						n++
 						base := optSpec{Tags: tags, Exact: exact, Nest: nest, Nil: onil, Empty: oempty, Bytes: 1}
-						if masks == "thorough" {
-							for _, srt := range []bool{false, true} {
-								for _, ck := range []string{"", "^"} {
-									o := base
-									o.Sort, o.Ck = srt, ck
-									o.Full = ck != "" && srt
-									res = append(res, o)
-								}
+						for _, alt := range []bool{false, true} {
+							o := base
+							o.Sort = alt != (n%2 == 0)
+							if alt {
+								o.Ck = "^"
+								o.Full = n%2 == 0
 							}
-						} else {
-							n++
-							base.Sort = n%2 == 0
-							if n%3 == 0 {
-								base.Ck = "^"
-								base.Full = n%2 == 0
-							}
-							res = append(res, base)
+							res = append(res, o)
 						}
 					}
 				}
 			}
 		}
 	}
+	if !res[0].Tags || !res[0].Exact || res[0].Nest || res[0].Nil || res[0].Empty {
+		panic("the first mask must be the Go-compatible one")
+	}
+	res[0].Ck, res[0].Full = "", false
 	if hasKind(c, "[]uint8") {
 		for _, b := range []int{0, 2} {
 			for _, tags := range []bool{true, false} {
